@@ -317,6 +317,13 @@ func c11(c *Ctx) {
 			o1, _ := pr.Print(g.F)
 			o2, _ := pr.Print(g.F)
 			// and a printer shared by all files of the run: what it returned for the previous file is still that text
+			if k%7 == 3 { // a file the shared printer rightly refuses comes in between
+				bad := ir.NewFile()
+				bad.Constraints = buildtags.Constraints{{{"amd64\npurego"}}}
+				if _, err := sharedPr.Print(bad); err == nil {
+					o.Plan.GoViolations = append(o.Plan.GoViolations, GoViolation{Key: "print:unformattable-constraint-accepted", Desc: "a file whose constraint term contains a line break is printed without an error", Replay: map[string]any{"term": "amd64\npurego"}})
+				}
+			}
 			nowHeld, _ := sharedPr.Print(g.F)
 			if prevHeld != nil && string(prevHeld) != prevSnap {
 				o.Plan.GoViolations = append(o.Plan.GoViolations, GoViolation{Key: "print:earlier-output-changed", Desc: fmt.Sprintf("case %d: the bytes the printer returned for the previous file changed when the same printer printed this one", idx), Replay: map[string]any{"returned": prevSnap, "now": string(prevHeld)}})
